@@ -72,6 +72,8 @@ type Op struct {
 	Gate bool   `json:"gate,omitempty"`
 	Rev  bool   `json:"rev,omitempty"`
 	Hold bool   `json:"hold,omitempty"`
+	// race: start the arrivals together instead of one after the other
+	Together bool `json:"together,omitempty"`
 	// reconf: the remedy (same name) is re-applied with another strategy / queue size
 	Quota int64 `json:"quota,omitempty"`
 	W     int64 `json:"w,omitempty"`
@@ -85,6 +87,14 @@ type Script struct {
 }
 
 func at(t int64) time.Time { return time.Unix(0, 0).Add(time.Duration(baseTicks+t) * tick) }
+
+// offsetClock is the clock handed to queue.NewRequest: the lock-step clock plus a fixed offset
+type offsetClock struct {
+	*c12q.Clock
+	off time.Duration
+}
+
+func (c offsetClock) Now() time.Time { return c.Clock.Now().Add(c.off) }
 
 type gate struct {
 	reached chan struct{}
@@ -102,6 +112,7 @@ type runner struct {
 	running sync.WaitGroup
 	out     int // outstanding Enqueue calls
 	ep      int // configuration epoch (number of reconfigurations so far)
+	sub     int // arrivals so far in this history (microsecond offset of the next request's timestamp)
 }
 
 func (rn *runner) sink(point string, kv ...any) {
@@ -154,17 +165,16 @@ func (rn *runner) quiesce(what string) {
 }
 
 // the real call; true = the request may proceed
-func (rn *runner) call(o Op, cfg Config) bool {
+func (rn *runner) call(o Op, cfg Config, req *queue.Request) bool {
 	if rn.dpq != nil {
-		req := queue.NewRequest(o.ID, float64(o.Prio), rn.clk)
 		ok, err := rn.dpq.Enqueue(req, time.Duration(o.Ttl)*tick, cfg.QSize)
 		if err != nil {
 			vh.Die("Enqueue: %v", err)
 		}
 		return ok
 	}
-	if cfg.W%2 != 0 || o.Ttl%2 != 0 {
-		vh.Die("plugin mode needs whole seconds (even ticks): w=%d ttl=%d", cfg.W, o.Ttl)
+	if cfg.W%2 != 0 {
+		vh.Die("plugin mode needs windows of whole seconds (even ticks): w=%d", cfg.W)
 	}
 	groups := map[string]sharedConfig.Prioritization{}
 	for p := 0; p < 8; p++ {
@@ -178,7 +188,7 @@ func (rn *runner) call(o Op, cfg Config) bool {
 				AllowedRequestCount: cfg.Quota,
 				WindowSizeInSeconds: int(cfg.W / 2),
 				ResponseStatusCode:  429,
-				TTLSeconds:          float32(o.Ttl / 2),
+				TTLSeconds:          float32(o.Ttl) / 2, // may be fractional (x.5 s)
 				QueueSize:           cfg.QSize,
 				Prioritization: &sharedConfig.GroupPrioritization{
 					GroupBy: sharedConfig.GroupBy{HeaderName: prioHdr}, Groups: groups,
@@ -216,10 +226,20 @@ func (rn *runner) start(o Op) {
 	rn.running.Add(1)
 	b := rn.tr.Stamp()
 	ep, cfg := rn.ep, rn.cfg // the configuration in force when the call is made
+	// The request object is made by the driver, in the order of the calls, with a timestamp a microsecond later
+	// than the previous one of this history: arrivals within one tick are ordered (sub = that order), the
+	// queue's own clock stays on the tick grid.  (Through the plugin the request is made inside OnRequest.)
+	var req *queue.Request
+	sub := 0
+	if rn.dpq != nil {
+		rn.sub++
+		sub = rn.sub
+		req = queue.NewRequest(o.ID, float64(o.Prio), offsetClock{rn.clk, time.Duration(sub) * time.Microsecond})
+	}
 	go func() {
 		defer rn.running.Done()
-		ok := rn.call(o, cfg)
-		rn.tr.AddAt(b, vh.Ev{"ev": "begin", "id": o.ID, "prio": o.Prio, "ttl": o.Ttl, "ok": ok, "ep": ep})
+		ok := rn.call(o, cfg, req)
+		rn.tr.AddAt(b, vh.Ev{"ev": "begin", "id": o.ID, "prio": o.Prio, "ttl": o.Ttl, "ok": ok, "ep": ep, "sub": sub})
 		rn.tr.Add(vh.Ev{"ev": "end", "id": o.ID, "ok": ok, "ep": ep})
 		rn.mu.Lock()
 		rn.out--
@@ -283,7 +303,7 @@ func main() {
 				switch e.Ev {
 				case "reset":
 					now = e.Now
-					rn.ep, rn.cfg = 0, sc.Config
+					rn.ep, rn.cfg, rn.sub = 0, sc.Config, 0
 					tr.Add(vh.Ev{"ev": "reset", "now": now})
 					rn.fresh(now)
 				case "enq":
@@ -325,11 +345,20 @@ func main() {
 					rn.quiet("conc")
 				case "race": // the arrivals run before the timers of the new instant are delivered
 					rn.tickOnce(&now)
+					if e.Hold {
+						rn.clk.HoldNow("DelayedPriorityQueue).process", "ensureWindowIsUpdated")
+					}
 					for _, o := range e.Ops {
 						rn.start(o)
+						if !e.Together { // one after the other, or started together
+							rn.quiesce("race arrival")
+						}
 					}
 					rn.quiesce("race arrivals")
 					rn.fire(e.Rev)
+					if e.Hold && !rn.clk.Held() {
+						rn.clk.ReleaseNow()
+					}
 					rn.quiet("race")
 				default:
 					vh.Die("unknown event %q", e.Ev)
